@@ -1,6 +1,8 @@
+import os
 import re
 """MIR helpers shared between property modules."""
 from ..mirlib import short_ty, callee_key
+from ..facts import EngineError
 
 
 def _fields(fn, want_write):
@@ -270,3 +272,104 @@ def clause_directive_after_token(r, mir):
     r.inst("handle_tag|directive-after-token", sample={"try_produce": len(tp), "get_next_parser_directive": len(gd)})
     if len(tp) != 1 or len(gd) != 1 or not f.dominates(tp[0], gd[0]):
         r.violate("handle_tag|directive-after-token", "Dispatcher::handle_tag asks for the next parser directive before the token was produced: the one-shot capture flag is still set at that point, so the parser stays in lexer mode for one more tag and buffers the next (unselected) tag or comment whole — held back, and charged to the memory limit, although no handler wants it", f.loc())
+
+
+# ---------------------------------------------------------------------------------------------
+# generic plumbing lint, scoped to a property's anchored files
+def _plain_name(f, op):
+    """last path segment of an operand that is a plain copy of a named parameter / capture / field of one
+    (`strict`, `arg1.strict`, `settings.strict`, `(*self).strict`), else None"""
+    d = f.deep(op)
+    if any(c in d for c in " (,[+-<>&") and not re.match(r"^\(\*[\w.]+\)\.[\w.]+$", d):
+        return None
+    d = d.replace("(*", "").replace(")", "")
+    m = re.match(r"^(?:[A-Za-z_]\w*\.)*([a-z_][a-z0-9_]*)$", d)
+    if not m or re.match(r"^(arg\d+|self|_\d+)$", m.group(1)):
+        return None
+    return m.group(1)
+
+
+def _op_ty(f, op):
+    if op.get("k") in ("copy", "move") and not op["p"]["proj"]:
+        return f.rec["locals"][op["p"]["local"]]
+    return None
+
+
+def anchor_files(pid):
+    import json as _json
+    from ..facts import VERIF as _V
+    for l in open(os.path.join(_V, "properties.jsonl")):
+        d = _json.loads(l)
+        if d["id"] == pid:
+            return d["anchors"]["files"]
+    raise EngineError("no anchors for " + pid)
+
+
+def rule_named_plumbing(ctx, mir, pid, rid, floor, crate_prefix="src/"):
+    """Swapped-argument / swapped-field lint over the functions defined in the property's anchored files."""
+    import fnmatch
+    files = anchor_files(pid)
+    r = ctx.rule(rid, "values reach the parameter / field they are named after (functions in the files this property is anchored in): a named parameter, capture or field handed to a callee that has a like-named parameter of the same type goes in that position; a struct literal does not cross two like-typed fields (a: x.b, b: x.a) nor fill a bool field from its sibling's source", "E-MIR operand provenance vs callee / field names", floor=floor)
+    bodies = {}
+    for f in mir.fns:
+        if not mir.is_test_fn(f):
+            bodies.setdefault(f.key, []).append(f)
+    def in_scope(f):
+        loc = (f.loc() or "").split(":")[0]
+        if "/c-api/" in loc:
+            loc = loc[loc.index("/c-api/") + 1:]
+        return any(fnmatch.fnmatch(loc, pat.replace("**/", "*")) or fnmatch.fnmatch(loc, pat) for pat in files)
+    n_ok = 0
+    n_fns = 0
+    for f in mir.fns:
+        if mir.is_test_fn(f) or not in_scope(f):
+            continue
+        n_fns += 1
+        for bi, t in f.calls(r"."):
+            ck = callee_key(t)
+            cands = bodies.get(ck) or []
+            if len(cands) != 1 or cands[0].rec["arg_count"] != len(t["args"]):
+                continue
+            g = cands[0]
+            pn = [g.name_of(i) for i in range(1, g.rec["arg_count"] + 1)]
+            pt = [g.rec["locals"][i] for i in range(1, g.rec["arg_count"] + 1)]
+            for i, a in enumerate(t["args"]):
+                nm = _plain_name(f, a)
+                if nm is None:
+                    continue
+                if pn[i] == nm:
+                    n_ok += 1
+                    continue
+                if nm in pn and pt[pn.index(nm)] == pt[i]:
+                    key = f"{f.key}|{ck}|{nm}"
+                    r.inst(key, sample={"argument": nm, "position": i, "callee_parameters": pn})
+                    r.violate(key, f"{f.key} passes `{nm}` to {ck} in the position of the parameter `{pn[i]}`; the callee's parameter `{nm}` (same type {pt[i]}) is at position {pn.index(nm)}: two like-typed values are crossed", f.loc())
+        for b in f.blocks:
+            if b["cleanup"]:
+                continue
+            for st in b["stmts"]:
+                if st["k"] != "assign" or st["rv"]["k"] != "agg" or not st["rv"].get("fields"):
+                    continue
+                flds = st["rv"]["fields"]
+                if any(x.isdigit() for x in flds):
+                    continue
+                src = {fl: (_plain_name(f, o), _op_ty(f, o)) for fl, o in zip(flds, st["rv"]["ops"])}
+                for a, (nm, ty) in src.items():
+                    if nm is None:
+                        continue
+                    if nm == a:
+                        n_ok += 1
+                        continue
+                    if nm in src and ty is not None and src[nm][1] == ty:
+                        other = src[nm][0]
+                        if other == a or (ty == "bool" and other == nm):
+                            key = f"{f.key}|{st['rv'].get('name')}|{a}"
+                            r.inst(key, sample={"field": a, "filled_from": nm, "sibling_filled_from": other})
+                            r.violate(key, f"{f.key} fills {st['rv'].get('name')}.{a} from `{nm}` while .{nm} is filled from `{other}`: two like-typed ({ty}) fields are crossed", f.loc())
+    r.inst("scope", sample={"anchored_files": files, "functions": n_fns})
+    r.count("named_values_in_place", n_ok)
+    r.count("functions_in_scope", n_fns)
+    for k in range(min(n_ok, 400)):
+        r.inst("in-place#%d" % k, nontrivial=False)
+    if n_ok < floor:
+        raise EngineError(f"{rid}: only {n_ok} named values found in place in the anchored files (expected at least {floor})")
